@@ -16,11 +16,13 @@ Line-protocol driver for the C01 model (kv manifest / crash recovery).
   crashj <k> <n>                          disk after k FS ops with a partial last record in MANIFEST-n; two reopens
   enc <fid> <log> ...                     hex of editLog.marshal
   dec <hex>                               editLog.unmarshal
+  entries <B> <len,len,...>               bufio entry framing: write, read back with a B-byte read buffer
 
 log tokens: nf,l,f,min,max,size  df,l,f  next,n  nr,f,i  dr,f,i  nref,storehex,fam,f  dref,storehex,fam,f  seq,l,s
 -/
 import LinVerif.Util.Proto
 import LinVerif.Model.KvFs
+import LinVerif.Model.Entries
 
 namespace LinVerif.Driver.C01
 open LinVerif LinVerif.Kv
@@ -314,6 +316,18 @@ def step (s : DSt) (ws : List String) : DSt × String :=
   | "enc" :: fid :: toks =>
     match fid.toInt?, toks.mapM parseLog with
     | some f, some logs => (s, hex (marshal ⟨f, logs⟩))
+    | _, _ => (s, "bad-op")
+  | ["entries", b, lens] =>
+    -- entry framing: write records of the given lengths (content generated from the index), read them
+    -- back with a read buffer of b bytes; print count, clean-end flag and length:checksum per record
+    match b.toNat?, (lens.splitOn ",").mapM String.toNat? with
+    | some bsz, some ls =>
+      if bsz = 0 then (s, "bad-op") else
+      let recs : List Bytes := (List.range ls.length).zip ls |>.map (fun (i, len) =>
+        (List.range len).map (fun j => (i * 31 + j * 7 + 3) % 251))
+      let r := readEntries bsz (writeEntries recs)
+      let sums := r.1.map (fun rec => s!"{rec.length}:{rec.foldl (fun a x => (a * 131 + x) % 1000003) 7}")
+      (s, s!"ok n={r.1.length} clean={r.2} {" ".intercalate sums}")
     | _, _ => (s, "bad-op")
   | ["dec", h] =>
     match unhex h with
